@@ -7,7 +7,7 @@ FAMILY = "tl1"
 F6_SIG = "C01:F6:length-sanity-rejects-written-value"
 
 
-def run(ctx, props=PROPS, random_only=False, nrand=None):
+def run(ctx, props=PROPS, random_only=False, nrand=None, leg=None):
     PROPS = props
     quick = ctx.quick()
     with Lock():
@@ -18,12 +18,20 @@ def run(ctx, props=PROPS, random_only=False, nrand=None):
             ref_err = None
         except RuntimeError as e:
             ref, ref_err = None, str(e)
+    import indep_ir
+    own_leg = leg is None
+    if own_leg:     # corr:<pid>:resolution -- the kernel dump against an independent derivation of the IR
+        leg = indep_ir.ResolutionLeg(ctx)
+        leg.build()
     bins, berr = build_tools(ctx.scratch)
     units = []
     if not berr:
         import randschema
-        specs = ([] if random_only else repo_corpus(quick)) + randschema.make_specs(ctx, nrand or (8 if quick else 60))
+        specs = ([] if random_only else repo_corpus(quick)) + randschema.make_specs(ctx, nrand or (8 if quick else 60), gen_cls=randschema.GenR)
         units = prepare_units(ctx, specs, bins)
+        leg.run(units)
+        if own_leg:
+            leg.run_extra(bins["verifdump"], 40 if quick else 400)
     nvals = 16 if quick else 150
     stats = {"schemas": 0, "types": 0, "values": 0, "rw_ops": 0, "go_rand_values": 0, "budget_skips": 0,
              "model_enc_none": 0, "kernel_rejected": 0, "wf_false": 0}
@@ -128,6 +136,12 @@ def run(ctx, props=PROPS, random_only=False, nrand=None):
                     ubad.append((u.name, l, o, f"C01:length-mismatch-crash:{u.name}:{l.split(' ')[1]}"))
                 else:
                     st["length_mismatch_skipped"] = st.get("length_mismatch_skipped", 0) + 1
+        # the list-based extracted model needs seconds to minutes on megabyte-sized values (FillRandom occasionally produces them);
+        # values above 128 KB are left out of the model comparison and counted
+        big = [x for x in rw if len(x[0]) > 262144]
+        if big:
+            st["oversized_values_skipped"] = st.get("oversized_values_skipped", 0) + len(big)
+            rw = [x for x in rw if len(x[0]) <= 262144]
         lines = [x[0] for x in rw]
         rc1, mo, err1 = run_lines(ref, [str(u.ir_path)], lines)
         rc2, go, err2 = run_lines(u.gen.exe, [], lines, timeout=900)
@@ -145,6 +159,9 @@ def run(ctx, props=PROPS, random_only=False, nrand=None):
             f = l.split(" ")
             inp_len = 0 if f[5] == "-" else len(f[5]) // 2
             want = f"ok {inp_len} {f[5]}"
+            if m.startswith("crash model-timeout") and g == want:   # model exceeded its per-operation time limit; Go satisfies the property
+                st["model_timeout_skipped"] = st.get("model_timeout_skipped", 0) + 1
+                continue
             if g != want:   # the property itself, on the implementation: written bytes read back and rewritten identically
                 if m == g and mo0 and mo0[i] == want:
                     kf.append((u.name, l, g))
@@ -170,6 +187,8 @@ def run(ctx, props=PROPS, random_only=False, nrand=None):
     pid = ctx.pid
     for name, l, g, sig in bad[:30]:
         ctx.violation(sig, f"{name}: TL1 write/read/write is not the identity: {trunc(l, 160)} -> {trunc(g, 120)}", {"unit": name, "op": l, "go": g})
+    if own_leg:
+        leg.report_violations(ctx)
     if not ctx.violations:
         if cres.get("Prim"):
             ctx.violation(f"{pid}:tconst", "translator T-const failed: " + cres["Prim"], {"theorem": "coq/theories/Props/C01.v", "error": cres["Prim"]}, no_input=True)
@@ -179,7 +198,7 @@ def run(ctx, props=PROPS, random_only=False, nrand=None):
             ctx.violation(f"{pid}:tools", "cannot build tl2gen/verifdump from /repo: " + trunc(berr, 600), {"error": berr}, no_input=True)
         if ref_err:
             ctx.violation(f"{pid}:model-build", "reference model does not build: " + trunc(ref_err, 600), {"error": ref_err}, no_input=True)
-        for name, e in unit_errors[:10]:
+        for name, e in reportable_unit_errors(unit_errors, ctx)[:10]:
             ctx.violation(f"{pid}:unit:{name}", f"schema unit {name}: {trunc(e, 600)}", {"unit": name, "error": e}, no_input=True)
         for name, l, m, g in mism[:30]:
             ctx.violation(f"{pid}:corr:{name}:{trunc(l, 60)}", f"corr:C01:tl1 {name}: model and generated code differ on {trunc(l, 140)}: model={trunc(m, 90)} go={trunc(g, 90)}",
@@ -190,6 +209,7 @@ def run(ctx, props=PROPS, random_only=False, nrand=None):
         "trusted_base": ["Coq 8.16.1 kernel", "translator overlay/cmd/verifdump (kernel dump -> schema IR) and lib/schema_ir.py (IR file writer)",
                          "translator tools/genconsts (string markers)", "extraction ExtrOcamlBasic only; ocaml/conv.ml, ocaml/tl1/schema_io.ml, ocaml/drv_tl1.ml",
                          "Go harness harness/go/gendrv; comparison in lib/checks/C01.py",
+                         "lib/indep_ir.py (independent IR derivation + lockstep comparison), ocaml/drv_tl1iso.ml (extracted Tl1IsoModel.ir_iso)",
                          "axioms: " + (", ".join(thm["axioms"]) if thm["axioms"] else "none (every theorem closed under the global context)")],
         "theorems": thm["statements"], "assumptions_per_theorem": thm["assumptions"],
         "evaluations": stats["rw_ops"], "distinct_nontrivial": stats["values"] + stats["go_rand_values"],
@@ -199,5 +219,8 @@ def run(ctx, props=PROPS, random_only=False, nrand=None):
         "samples": samples or [{"note": "no ops ran"}],
         "schemas": [{"name": u.name, "options": u.options, "instances": len(u.ins or []), "error": trunc(u.error, 200) if u.error else None} for u in units],
     })
+    if own_leg:
+        leg.report_evidence(ctx)
     ctx.assumptions += ["64-bit platform", "the templates are modelled, not verified: agreement shown on the listed schemas/values",
-                        "kernel resolution trusted for repository schemas (the IR is dumped from the kernel)"]
+                        "the IR is dumped from the kernel; its resolution is cross-checked against the independent derivation lib/indep_ir.py on every schema unit "
+                        "(leg corr:" + ctx.pid + ":resolution); what that derivation does not model (TL2 bits, Go naming, !X wrappers) stays trusted"]
